@@ -177,7 +177,7 @@ Definition dec_zero : dec := mkdec false 0 0.
 Section Render.
 (* ctx.dcontext.quantize(number, currency) of the ledger's display context *)
 Variable quant : dec -> str -> dec.
-(* [numfmt ups] = DisplayContext() updated with the pairs [ups], .build(Align.DOT) *)
+(* [numfmt ups] = DisplayContext() updated with the pairs [ups], .build(Align.DOT, Precision.MAXIMUM) *)
 Variable numfmt : list (dec * str) -> dec -> str -> str.
 
 (* ---------- AmountRenderer ---------- *)
@@ -296,7 +296,7 @@ Definition render_row (o : opts) (sts : list (dtype * rstate)) (row : list cellv
   let cells := map2 (render_cell o) sts row in
   (if existsb is_many cells then
      let ls := map as_list cells in
-     let n := nmax (map (@length str) ls) in
+     let n := Nat.max 1 (nmax (map (@length str) ls)) in
      map (fun i => map (fun c => nth i c []) ls) (seq 0 n)
    else [map cell_str cells])
   ++ (if o_spaced o then [map (fun _ => []) sts] else []).
